@@ -40,6 +40,22 @@ def official_gate(vs):
         return nums > [2]
     return rest != ''
 
+import collections
+
+class _SubList(list):
+    pass
+
+class _SubXStr(XStr):
+    pass
+
+class _SubGrid(Grid):
+    pass
+
+def _sub_grid():
+    g = _SubGrid(version='3.0', columns=[('k', [])])
+    g.append({'k': 1})
+    return g
+
 def inner_grid():
     g = Grid(version='3.0', columns=[('k', [])])
     g.append({'k': 1})
@@ -48,8 +64,11 @@ def inner_grid():
 def kinds():
     # (name, value, is 3.0-only)
     return [('na', NA, True), ('list', [1, 'a'], True), ('dict', {'a': 1}, True), ('grid', inner_grid(), True), ('xstr', XStr('Span', 'today'), True),
-            ('empty_list', [], True), ('str', 'x', False), ('num', 5.5, False), ('marker', MARKER, False), ('remove', REMOVE, False), ('ref', Ref('a'), False), ('null', None, False)]
-NKINDS = 12
+            ('empty_list', [], True), ('str', 'x', False), ('num', 5.5, False), ('marker', MARKER, False), ('remove', REMOVE, False), ('ref', Ref('a'), False), ('null', None, False),
+            # instances of subclasses are values of the same Haystack kind
+            ('ordered_dict', collections.OrderedDict([('a', 1)]), True), ('default_dict', collections.defaultdict(int, a=1), True), ('list_subclass', _SubList([1, 'a']), True),
+            ('grid_subclass', _sub_grid(), True), ('xstr_subclass', _SubXStr('Span', 'today'), True)]
+NKINDS = 17
 
 def mk(vi):
     v = VERSIONS[vi]
@@ -238,6 +257,40 @@ if only30 and not official_gate(vs):
 return r[0] == 'ok'
 ''', 'the writers refuse (ValueError) to emit 3.0-only data found in grid metadata, column metadata or rows of a grid with a pre-3.0 version, and write it under 3.0-rules versions')
 
+add('derived_grids', 'how: int, ki: int, where: int, keep: bool', '0 <= how <= 4 and 0 <= ki <= 5 and 0 <= where <= 1', '''
+name, val, only30 = kinds()[conc(ki, 0, 5)]
+g = Grid(columns=[('id', []), ('a', [])])          # no explicit version: upgraded by the value stored below
+g.append({'id': 'r1', 'a': 1})
+g.append({'id': 'r2', 'a': val} if conc(where, 0, 1) == 0 else {'id': 'r2', 'a': [val]})
+g.append({'id': 'r3'})
+if not official_gate(str(g.version)):
+    return False
+how = conc(how, 0, 4)
+if how == 0:
+    d = g[1:] if keep else g[0:1]
+elif how == 1:
+    d = g[:] if keep else g[2:]
+elif how == 2:
+    d = g[::-1] if keep else g[0:3:2]
+elif how == 3:
+    d = g.filter('a') if keep else g.filter('not a')
+else:
+    d = g.filter('id', 2) if keep else g.filter('id', 1)
+has = holds_30_data(d)
+if has and not official_gate(str(d.version)):
+    return False          # 3.0-only data in a grid labelled pre-3.0
+for mode in (hszinc.MODE_ZINC, hszinc.MODE_JSON):
+    r = outcome(lambda: hszinc.dump(d, mode=mode))
+    if r[0] != 'ok':
+        return False      # a grid derived from a dumpable grid is dumpable
+    back = hszinc.parse(r[1], mode=mode)
+    if str(back.version) != str(d.version) or len(back) != len(d):
+        return False
+    if holds_30_data(back) and not official_gate(str(back.version)):
+        return False
+return True
+''', 'grids derived from an auto-upgraded grid (slices incl. full, reversed and stepped; filter results with and without limit): never 3.0-only data under a pre-3.0 label, in memory or dumped')
+
 add('nested_gate', 'vi: int, ki: int, js: bool', '1 <= vi < len(VERSIONS) and 0 <= ki <= 5', '''
 inner_ver = VERSIONS[conc(vi, 1, len(VERSIONS) - 1)]
 name, val, only30 = kinds()[conc(ki, 0, 5)]
@@ -274,9 +327,9 @@ return all(x == want for x in d)
 def run(chk):
     quick = chk.tier == 'quick'
     chk.bounds = dict(versions='none, 2.0, 3.0, 2.5, 3.0.0, 1.0, 4.0, 2.0.0, 2.0a, 3; and every a[.b[.c]] with a<=4, b<=3, c<=2 with/without suffix "a" (five-way agreement)',
-                      value_kinds='NA, list, empty list, dict, nested grid, XStr (3.0-only) and str, number, marker, remove, ref, null',
+                      value_kinds='NA, list, empty list, dict, nested grid, XStr, and instances of subclasses: OrderedDict, defaultdict, a list subclass, a Grid subclass, an XStr subclass (3.0-only); str, number, marker, remove, ref, null',
                       entry_paths='15: metadata store / append / extend / overwrite, column-metadata store / overwrite, column[name]={...}, append, insert, extend, setitem, +=, constructor metadata / columns / columns dict',
-                      history='one store from a fresh grid; all pairs of stores over 12 entry paths')
+                      history='one store from a fresh grid; all pairs of stores over 12 entry paths; grids derived (slice, filter) from an auto-upgraded grid')
     chk.assumptions = ['gate = "the declared version is later than 2.0" (every version later than 2.0 is handled with the 3.0 rules: Version.nearest), written independently in the harness',
                        'entry paths, kinds and versions are chosen by symbolic selectors; values are concrete objects',
                        'reader acceptance is observed on a one-cell document declaring the version and holding the 3.0 wire form of the value']
